@@ -175,7 +175,8 @@ def _ref_listing(case, lo, hi, sa, sb, pa, pb) -> List[str]:
 
 
 def _unused_pinned(case, lo, hi, sa, sb, pa, pb) -> bool:
-    """Symbolic inputs that the case does not use are pinned (keeps the search space honest and small)."""
+    """Symbolic inputs that the case does not use are pinned (keeps the search space honest and small).
+    The booleans are summed rather than tested one by one: no path fork per pinned input."""
     fs, entries, dirs = fx_info(case['fx'])
     mods = case.get('mods', ())
     rec = case.get('rec', True)
@@ -184,12 +185,12 @@ def _unused_pinned(case, lo, hi, sa, sb, pa, pb) -> bool:
     if not (rec and case.get('has_max')) and hi != 0:
         return False
     ne, nd = len(entries), len(dirs)
-    for name, tup, n in (('sa', sa, ne), ('sb', sb, ne), ('pa', pa, nd), ('pb', pb, nd)):
-        used = n if name in mods else 0
+    n = 0
+    for name, tup, cnt in (('sa', sa, ne), ('sb', sb, ne), ('pa', pa, nd), ('pb', pb, nd)):
+        used = cnt if (name in mods or name in case.get('uses', ())) else 0
         for i in range(used, len(tup)):
-            if tup[i]:
-                return False
-    return True
+            n = n + tup[i]
+    return n == 0
 
 
 def _svh_ok(r) -> bool:
@@ -198,8 +199,11 @@ def _svh_ok(r) -> bool:
 
 # --------------------------------------------------------------------------- K1
 
+NEG_BOUND = -99  # str() of an unbounded negative integer (error message) has unboundedly many digits
+
+
 def _pre_k1(lo, hi, sa, sb, pa, pb) -> bool:
-    return _unused_pinned(ob.case(), lo, hi, sa, sb, pa, pb)
+    return lo >= NEG_BOUND and hi >= NEG_BOUND and _unused_pinned(ob.case(), lo, hi, sa, sb, pa, pb)
 
 
 def k1_walk(lo: int, hi: int, sa: B8, sb: B4, pa: B4, pb: B4) -> bool:
@@ -236,6 +240,405 @@ def k1_walk(lo: int, hi: int, sa: B8, sb: B4, pa: B4, pb: B4) -> bool:
                    and len(log['REC']) == 1
                    and log['REC'][0] == expected
                    and prune_asked_only_dirs)
+
+
+# --------------------------------------------------------------------------- K2
+
+OPS = {'==': lambda a, b: a == b, '!=': lambda a, b: a != b, '<': lambda a, b: a < b,
+       '<=': lambda a, b: a <= b, '>': lambda a, b: a > b, '>=': lambda a, b: a >= b}
+
+# FILES-CONDITIONs over the names of fixture 'nest' (a, d, d/b, d/e, d/e/c) +- one.
+# element ::= (name, None | 'QB' | 'type T')
+FC_NEST = [
+    [],
+    [('a', None)],
+    [('a', None), ('d', 'type dir')],
+    [('a', 'type dir')],
+    [('d', None), ('a', None)],
+    [('a', None), ('d', None), ('d/b', None), ('d/e', None)],
+    [('a', None), ('d', None), ('d/b', None), ('d/e', None), ('d/e/c', 'type file')],
+    [('a', None), ('zz', None)],
+    [('d/b', 'QB'), ('a', 'QB')],
+    [('a', 'QB'), ('d', None), ('a', 'type file')],
+    [('./a', None), ('d//', None)],
+    [('d/../a', None)],
+    [('/abs', None)],
+    [('', None), ('a', None)],
+]
+
+
+def _fc_text(fc) -> str:
+    lines = ['{']
+    for name, m in fc:
+        n = "''" if name == '' else name
+        if m is None:
+            lines.append('  ' + n)
+        else:
+            lines.append('  %s : %s' % (n, 'SB' if m == 'QB' else m))
+    lines.append('}')
+    return '\n'.join(lines)
+
+
+def _matcher_text(m, fc_idx) -> str:
+    k = m[0]
+    if k == 'num':
+        return 'num-files %s K2' % m[1]
+    if k == 'empty':
+        return 'is-empty'
+    if k in ('every', 'any'):
+        return '%s file : %s' % (k, 'SB' if m[1] == 'QB' else m[1])
+    if k == 'matches':
+        return 'matches %s%s' % ('-full ' if m[1] else '', _fc_text(FC_NEST[fc_idx]))
+    if k == 'subdirs-num':
+        return '-selection type dir every file : dir-contents num-files == K2'
+    raise ValueError(m)
+
+
+def _file_matcher_holds(fm: str, fx: str, rel: str, qb) -> bool:
+    fs, entries, dirs = fx_info(fx)
+    if fm == 'QB':
+        return qb[entries.index(rel)]
+    assert fm.startswith('type ')
+    return lib.ref_type_of(fs, [fx] + rel.split('/'))[fm[5:]]
+
+
+def _ref_verdict(case, listing: List[str], k: int, qb, fc_idx: int):
+    """-> 'invalid' | bool : the documented verdict of the files-matcher on the set of files `listing`"""
+    m = case['m']
+    fx = case['fx']
+    kind = m[0]
+    if kind == 'num':
+        return OPS[m[1]](len(listing), k)
+    if kind == 'empty':
+        return len(listing) == 0
+    if kind == 'every':
+        return all(_file_matcher_holds(m[1], fx, f, qb) for f in listing)
+    if kind == 'any':
+        return any(_file_matcher_holds(m[1], fx, f, qb) for f in listing)
+    if kind == 'subdirs-num':
+        fs, entries, dirs = fx_info(fx)
+        return all(len(fs.children_of([fx] + f.split('/'))) == k for f in listing if f in dirs)
+    if kind == 'matches':
+        fc = FC_NEST[fc_idx]
+        for name, fm in fc:
+            if name == '' or name.startswith('/'):
+                return 'invalid'
+        names = ['/'.join(lib.name_parts(name)) for name, fm in fc]
+        for (name, fm), n in zip(fc, names):
+            if n not in listing:
+                return False
+        if m[1] and set(listing) != set(names):
+            return False
+        for (name, fm), n in zip(fc, names):
+            if fm is not None and not _file_matcher_holds(fm, fx, n, qb):
+                return False
+        return True
+    raise ValueError(m)
+
+
+def _pre_k2(lo, hi, k, fc, sa, qb) -> bool:
+    case = ob.case()
+    if not (lo >= NEG_BOUND and hi >= NEG_BOUND):
+        return False
+    if case['m'][0] == 'matches':
+        if not (0 <= fc < len(FC_NEST)):
+            return False
+    elif fc != 0:
+        return False
+    if case['m'][0] not in ('num', 'subdirs-num') and k != 0:
+        return False
+    return _unused_pinned(case, lo, hi, sa, qb, (False,) * 4, (False,) * 4)
+
+
+def k2_match(lo: int, hi: int, k: int, fc: int, sa: B8, qb: B8) -> bool:
+    """
+    pre: _pre_k2(lo, hi, k, fc, sa, qb)
+    post: _
+    """
+    from vsym import xly
+    case = ob.case()
+    fx = case['fx']
+    w = lib.world()
+    log = _new_log()
+    no4 = (False,) * 4
+    symbols = _symbols(fx, sa, qb, no4, no4, log)
+    xly.install_int_placeholders([lo, hi, k])
+    fc_idx = ob.concrete_int(fc, 0, len(FC_NEST) - 1) if case['m'][0] == 'matches' else 0
+    neg = bool(case.get('neg'))
+    text = '%s-rel-act %s : %s %s' % ('! ' if neg else '', case.get('path', fx), _model_text(case),
+                                      _matcher_text(case['m'], fc_idx))
+    instr = lib.parse_instruction('exists', text)
+    listing = _ref_listing(case, lo, hi, sa, no4, no4, no4)
+    if case.get('oracle_bug'):
+        listing = listing[1:]  # seeded oracle error: the oracle loses a file
+    verdict = _ref_verdict(case, listing, k, qb, fc_idx)
+    must_be_invalid = bool((case.get('has_min') and lo < 0) or (case.get('has_max') and hi < 0)) or verdict == 'invalid'
+    v = instr.validate_pre_sds(w.env_pre(symbols))
+    if not v.is_success:
+        return ob.post(must_be_invalid)
+    if must_be_invalid:
+        return ob.post(False)
+    env = w.env_post(symbols)
+    if not instr.validate_post_setup(env).is_success:
+        return ob.post(False)
+    r = instr.main(env, None, lib.os_services())
+    expected = 'PASS' if (verdict != neg) else 'FAIL'
+    return ob.post(r.status.name == expected)
+
+
+def _pre_k2x(k) -> bool:
+    return True
+
+
+def k2_special(k: int) -> bool:
+    """
+    pre: _pre_k2x(k)
+    post: _
+    """
+    from vsym import xly
+    from exactly_lib.util.symbol_table import SymbolTable
+    case = ob.case()
+    w = lib.world()
+    fx_real(case['fx'])
+    xly.install_int_placeholders([0, 0, k])
+    instr = lib.parse_instruction('exists', case['text'])
+    symbols = SymbolTable({})
+    if not instr.validate_pre_sds(w.env_pre(symbols)).is_success:
+        return ob.post(False)
+    env = w.env_post(symbols)
+    r = instr.main(env, None, lib.os_services())
+    exp = case['expect']
+    if exp == 'num==':
+        exp = 'PASS' if case['n'] == k else 'FAIL'
+    return ob.post(r.status.name == exp)
+
+
+# --------------------------------------------------------------------------- K3 / K4: populate
+
+SRC_FIXTURES = {
+    'src1': D(a=F('S'), sub=D(x=F('X'))),
+    'src2': D(a=F('A2'), lnk=L('a')),
+    'src3': D(a=F('A3'), sub=D(l=L('../a')), dl=L('nowhere')),
+    'afile': F('not a dir'),
+}
+
+SIB = {'f': F('s')}  # a sibling of the populated directory ("outside")
+
+INIT_TREES = {
+    'absent': None,  # the populated directory does not exist: `dir P = { ... }`
+    'empty': {},
+    'file-a': {'a': F('A')},
+    'dir-d': {'d': D(a=F('D'))},
+    'dir-a': {'a': D()},
+    'file-d': {'d': F('notdir')},
+    'link-l-to-d': {'l': L('d'), 'd': D()},
+    'broken-a': {'a': L('nowhere')},
+    'broken-a-out': {'a': L('../escaped')},
+    'link-e-to-file': {'e': L('a'), 'a': F('A')},
+    'broken-d': {'d': L('nowhere')},
+}
+
+ABS = '@ABS@'  # replaced by an absolute path inside the scratch world
+
+
+def _entry_catalogue(tier):
+    c = [
+        ('file', 'a', None, None),
+        ('file', 'a', '=', 'x'),
+        ('file', 'a', '+=', 'y'),
+        ('dir', 'd', None, None),
+        ('dir', 'd', '=', [('file', 'a', '=', 'z')]),
+        ('dir', 'd', '+=', [('file', 'b', None, None), ('dir', 'e', None, None)]),
+        ('file', 'd/a', '=', 'w'),
+        ('file', 'd/a', '+=', 'v'),
+        ('dir', 'd/e/g', None, None),
+        ('dir', 'd', '=', ('copy', ['case', 'src1'])),
+        ('dir', 'd', '+=', ('copy', ['case', 'src1'])),
+        ('dir', '.', '+=', ('copy', ['case', 'src2'])),
+        ('file', '../x', None, None),
+        ('file', ABS, '=', 'abs'),
+        ('file', 'l/n', '=', 'n'),
+        ('file', 'e', '+=', 'E'),
+    ]
+    if tier == 'thorough':
+        c += [
+            ('dir', 'd/../e', None, None),
+            ('file', 'a/b', '=', 'q'),
+            ('dir', 'd', '+=', [('file', 'a', '+=', 't'), ('file', '../y', None, None)]),
+            ('dir', 'd', '+=', [('dir', 'e', '=', [('file', 'deep', '=', 'D')]), ('file', 'e/deep', '+=', '2')]),
+            ('file', './a//b/', '=', 'n'),
+            ('dir', 'c', '=', ('copy', ['case', 'src3'])),
+            ('dir', 'c', '=', ('copy', ['case', 'nosuch'])),
+            ('dir', 'c', '=', ('copy', ['case', 'afile'])),
+            ('dir', 'a', '+=', []),
+            ('dir', '.', None, None),
+        ]
+    return c
+
+
+def _subst_abs(entries, abs_name):
+    out = []
+    for kind, name, mod, contents in entries:
+        if isinstance(contents, list):
+            contents = _subst_abs(contents, abs_name)
+        out.append((kind, abs_name if name == ABS else name, mod, contents))
+    return out
+
+
+def _copy_sources_invalid(entries, fs) -> bool:
+    """`dir-contents-of P`: P must be an existing directory (checked by validation: P is relative the home dir)"""
+    for kind, name, mod, contents in entries:
+        if isinstance(contents, tuple) and not fs.is_dir(contents[1]):
+            return True
+        if isinstance(contents, list) and _copy_sources_invalid(contents, fs):
+            return True
+    return False
+
+
+def _world_without(children: dict, path: List[str]) -> dict:
+    """copy of a world description with the node at `path` removed"""
+    out = {}
+    for k, v in children.items():
+        if k == path[0]:
+            if len(path) == 1:
+                continue
+            if v[0] == 'd':
+                out[k] = ('d', _world_without(v[1], path[1:]))
+                continue
+        out[k] = v
+    return out
+
+
+OUTCOMES = []  # outcome of every run_populate of this process (diagnostics / self-test)
+
+
+def run_populate(init_name: str, entries, oracle_bug: bool = False) -> bool:
+    """Populates a real directory with the REAL `dir` instruction and compares with the reference fold.
+    Everything here is concrete."""
+    import shutil
+    w = lib.world()
+    # ---- the real world: <act>/par/{dst?, sib}, <case>/{src1, ...}
+    par = os.path.join(w.act_dir, 'par')
+    if os.path.exists(par):
+        shutil.rmtree(par)
+    os.mkdir(par)
+    act_children = {'par': D(sib=lib.DD(SIB))}
+    init = INIT_TREES[init_name]
+    if init is not None:
+        act_children['par'][1]['dst'] = lib.DD(init)
+    lib.materialize(act_children['par'][1], par)
+    if not os.path.exists(os.path.join(w.case_dir, 'src1')):
+        lib.materialize(SRC_FIXTURES, w.case_dir)
+    abs_name = os.path.join(par, 'sib', 'abs')
+    entries = _subst_abs(entries, abs_name)
+    before = {'act': lib.DD(act_children), 'case': lib.DD(SRC_FIXTURES)}
+    fs = lib.MemFs(before)
+    dst = ['act', 'par', 'dst']
+
+    # ---- real
+    text = '-rel-act par/dst %s {\n%s\n}' % ('=' if init is None else '+=',
+                                             lib.render_entries(entries, lambda parts: '/'.join(parts[1:])))
+    from exactly_lib.util.symbol_table import SymbolTable
+    instr = lib.parse_instruction('dir', text, cache=False)
+    symbols = SymbolTable({})
+    v = instr.validate_pre_sds(w.env_pre(symbols))
+
+    def real_world():
+        return {'act': ('d', {'par': ('d', lib.snapshot(par))}), 'case': ('d', lib.snapshot(w.case_dir))}
+
+    # ---- reference
+    invalid = lib.entries_have_invalid_name(entries) or _copy_sources_invalid(entries, fs)
+    if not v.is_success:
+        OUTCOMES.append('validation')
+        return invalid and real_world() == before
+    if invalid:
+        OUTCOMES.append('missed-validation')
+        return False
+    env = w.env_post(symbols)
+    r = instr.main(env, None, lib.os_services(), None)
+    try:
+        if init is None:
+            fs.mkdir_p(dst)
+        if oracle_bug:
+            entries = list(reversed(entries))  # seeded oracle error: entries applied in reverse order
+        lib.ref_populate(fs, dst, entries)
+        ref_ok = True
+    except lib.RefHardError:
+        ref_ok = False
+    after = real_world()
+    OUTCOMES.append('ok' if r.is_success else 'hard')
+    if r.is_success != ref_ok:
+        return False
+    if ref_ok:
+        return after == {'act': fs.root[1]['act'], 'case': fs.root[1]['case']}
+    # HARD_ERROR: nothing outside the populated directory has changed
+    return _world_without(after, dst) == _world_without(before, dst)
+
+
+def _pre_k3(e0, e1, e2) -> bool:
+    n = len(_entry_catalogue(ob.case()['tier']))
+    k = ob.case()['k']
+    es = (e0, e1, e2)
+    for i in range(3):
+        if i < k:
+            if not (0 <= es[i] < n):
+                return False
+        elif es[i] != 0:
+            return False
+    return True
+
+
+def k3_populate(e0: int, e1: int, e2: int) -> bool:
+    """
+    pre: _pre_k3(e0, e1, e2)
+    post: _
+    """
+    case = ob.case()
+    cat = _entry_catalogue(case['tier'])
+    first = case.get('first')
+    sel = [ob.concrete_int(e, 0, len(cat) - 1) for e in (e0, e1, e2)[:case['k']]]
+    with lib.untraced():
+        entries = ([cat[first]] if first is not None else []) + [cat[i] for i in sel]
+        ok = run_populate(case['init'], entries, bool(case.get('oracle_bug')))
+    return ob.post(ok)
+
+
+NAME_ALPHABET = 'a./:'
+
+
+def _pre_k4(c0, c1, c2, c3, c4) -> bool:
+    n = ob.case()['n']
+    cs = (c0, c1, c2, c3, c4)
+    for i in range(5):
+        if i < n:
+            if not (0 <= cs[i] < len(NAME_ALPHABET)):
+                return False
+        elif cs[i] != 0:
+            return False
+    return True
+
+
+def k4_names(c0: int, c1: int, c2: int, c3: int, c4: int) -> bool:
+    """
+    pre: _pre_k4(c0, c1, c2, c3, c4)
+    post: _
+    """
+    case = ob.case()
+    idx = [ob.concrete_int(c, 0, len(NAME_ALPHABET) - 1) for c in (c0, c1, c2, c3, c4)[:case['n']]]
+    with lib.untraced():
+        name = ''.join(NAME_ALPHABET[i] for i in idx)
+        if case.get('oracle_bug'):
+            name = name.replace('..', 'a')  # seeded oracle error: `..` not recognised by the oracle ...
+            ok = lib.name_is_invalid(name) == _real_name_invalid(''.join(NAME_ALPHABET[i] for i in idx))
+        else:
+            entries = [(case['kind'], name, case['mod'], ('n' if case['kind'] == 'file' and case['mod'] else None))]
+            ok = run_populate(case['init'], entries)
+    return ob.post(ok)
+
+
+def _real_name_invalid(name: str) -> bool:
+    from exactly_lib.impls.types.files_source.impl import file_list
+    return file_list._IsValidPosixPath(name).validate_pre_sds_if_applicable(None) is not None
 
 
 # --------------------------------------------------------------------------- obligations
@@ -291,7 +694,7 @@ def _walk_bound(case) -> str:
     b = 'fixture %r (%d files incl. %d directories / links to directories); `%s REC`' % (
         case['fx'], len(entries), len(dirs), _model_text(case))
     if case.get('has_min') or case.get('has_max'):
-        b += '; every depth limit K_i in Z (negative: must be a validation error)'
+        b += '; every depth limit K_i >= -99 (negative: must be a validation error)'
     if case.get('mods'):
         b += '; every verdict of every selection / prune matcher per file'
     return b
@@ -306,6 +709,16 @@ def _k1_cases(tier):
         for has_min in (False, True):
             for has_max in (False, True):
                 cases.append(dict(fx=fx, has_min=has_min, has_max=has_max))
+    # selection / prune, alone and combined (both orders: "pruning is done before selection regardless of order")
+    for fx in ('nest', 'links', 'two'):
+        for mods in (('sa',), ('pa',), ('sa', 'pa'), ('pa', 'sa')):
+            cases.append(dict(fx=fx, mods=mods))
+    for fx in ('nest', 'two'):
+        cases.append(dict(fx=fx, mods=('pa', 'pb')))
+        cases.append(dict(fx=fx, mods=('pa',), has_min=True, has_max=True))
+    cases.append(dict(fx='flat', mods=('sa', 'sb')))
+    cases.append(dict(fx='nest', mods=('sa',), rec=False))
+    cases.append(dict(fx='nest', mods=('pa',), rec=False))
     return cases
 
 
@@ -319,6 +732,164 @@ def obligations(tier: str) -> List[Ob]:
                   case=dict(fx='nest', has_min=False, has_max=True, oracle_bug=True), kernel='K1',
                   bound='seeded oracle error: -max-depth taken as exclusive', timeout=120,
                   expect=ob.REFUTE, real=REAL_WALK))
+    obs += _k2_obligations(tier)
+    obs += _k3_obligations(tier)
+    obs += _k4_obligations(tier)
+    return obs
+
+
+REAL_POP = (
+    'exactly_lib.impls.instructions.multi_phase.new_dir.TheInstructionEmbryo.main',
+    'exactly_lib.impls.instructions.multi_phase.new_dir.EmbryoParser',
+    'exactly_lib.impls.instructions.setup.utils.instruction_from_parts.SetupPhaseInstructionFromParts',
+    'exactly_lib.impls.types.files_source.impl.file_list.Primitive.populate',
+    'exactly_lib.impls.types.files_source.impl.file_list._child_dp',
+    'exactly_lib.impls.types.files_source.impl.file_list._IsValidPosixPath',
+    'exactly_lib.impls.types.files_source.impl.file_list.FileSpecificationDdv',
+    'exactly_lib.impls.types.files_source.impl.parse_file_list.Parser',
+    'exactly_lib.impls.types.files_source.impl.parse_file_list.ParserOfFileSpec',
+    'exactly_lib.impls.types.files_source.impl.parse_file_list.ParserOfFileMaker',
+    'exactly_lib.impls.types.files_source.impl.copy_dir_contents._CopyDirContents',
+    'exactly_lib.impls.types.files_source.impl.copy_dir_contents._CopyDirContentsDdv',
+    'exactly_lib.impls.types.files_source.impl.parse_copy.Parser',
+    'exactly_lib.impls.types.files_source.impl.file_makers.dir_.DirFileMaker',
+    'exactly_lib.impls.types.files_source.impl.file_makers.regular.RegularFileMaker',
+    'exactly_lib.impls.types.files_source.impl.file_makers.utils.NewFileCreator',
+    'exactly_lib.impls.types.files_source.impl.file_makers.utils.ExistingFileModifier',
+    'exactly_lib.impls.types.files_source.file_maker.FileMaker.make__translate_hard_error',
+    'exactly_lib.impls.types.files_source.parse.FullFilesSourceParser',
+)
+
+STUB_UNTRACED = ('[selector] kernels: after the selectors have been made concrete (one path per value) the real code runs '
+                 'with the CrossHair tracer suspended - every input is concrete at that point')
+
+OUT_POP = ('initial trees with symbolic links that lead to directories outside the populated directory',
+           'FILE-SPECs, names, initial trees and source directories other than the listed catalogues',
+           'file contents other than short literals; string sources other than literals (C05/C14)',
+           'the state of the populated directory after a HARD_ERROR (only "nothing outside it changed" is checked)',
+           'permissions, special files, concurrent modification')
+
+
+REAL_K2 = REAL_WALK + (
+    'exactly_lib.impls.types.files_matcher.impl.num_files._PropertyGetter.get_from',
+    'exactly_lib.impls.types.files_matcher.impl.emptiness._EmptinessMatcher.matches_w_trace',
+    'exactly_lib.impls.types.files_matcher.impl.quant_over_files._file_elements_from_model',
+    'exactly_lib.impls.types.matcher.impls.quantifier_matchers',
+    'exactly_lib.impls.types.files_matcher.impl.matches.matches_full._Applier',
+    'exactly_lib.impls.types.files_matcher.impl.matches.matches_non_full._Applier',
+    'exactly_lib.impls.types.files_matcher.impl.matches.common._Matcher.matches_w_trace',
+    'exactly_lib.impls.types.files_matcher.parse_files_matcher._parse_matches',
+    'exactly_lib.impls.types.files_condition.impl.literal._DdvHelper',
+    'exactly_lib.impls.types.files_condition.impl.literal._IsRelativePosixPath',
+    'exactly_lib.impls.types.files_condition.parse._parse_elements',
+    'exactly_lib.impls.types.file_matcher.impl.file_type.FileMatcherType.matches_w_trace',
+    'exactly_lib.impls.types.files_matcher.models._FileTypeAccessForDirEntry.is_type',
+    'exactly_lib.impls.types.file_matcher.file_matcher_models._FileTypeAccessForPath.is_type',
+    'exactly_lib.impls.types.file_matcher.impl.file_contents_utils._FileContentsMatcher._hard_error_if_file_is_not_existing_of_expected_type',
+)
+
+M1 = dict(fx='nest', has_max=True)  # `dir-contents -recursive -max-depth K1` on fixture nest: 2, 4 or 5 files
+
+
+def _k2_cases(tier):
+    cases = []
+    ops = ('==', '<=', '>') if tier == 'quick' else tuple(OPS)
+    for op in ops:
+        cases.append(('num%s/nest-max' % op, dict(M1, m=('num', op))))
+    cases.append(('num==/flat-sa', dict(fx='flat', rec=False, mods=('sa',), m=('num', '=='))))
+    cases.append(('num>=/links-nonrec', dict(fx='links', rec=False, m=('num', '>='))))
+    cases.append(('num==/neg', dict(M1, m=('num', '=='), neg=True)))
+    cases.append(('empty/nest-minmax', dict(fx='nest', has_min=True, has_max=True, m=('empty',))))
+    cases.append(('empty/empty', dict(fx='empty', rec=False, m=('empty',))))
+    cases.append(('empty/flat-sa/neg', dict(fx='flat', rec=False, mods=('sa',), m=('empty',), neg=True)))
+    cases.append(('every/nest-max', dict(M1, m=('every', 'QB'), uses=('sb',))))
+    cases.append(('any/nest-max', dict(M1, m=('any', 'QB'), uses=('sb',))))
+    cases.append(('every/empty', dict(fx='empty', m=('every', 'QB'), uses=('sb',))))
+    cases.append(('any/empty', dict(fx='empty', m=('any', 'QB'), uses=('sb',))))
+    for t in ('file', 'dir', 'symlink'):
+        cases.append(('any-type-%s/flat' % t, dict(fx='flat', rec=False, m=('any', 'type ' + t))))
+        cases.append(('every-type-%s/links-sa' % t, dict(fx='links', rec=False, mods=('sa',), m=('every', 'type ' + t))))
+    cases.append(('matches/nest-max', dict(M1, m=('matches', False), uses=('sb',))))
+    cases.append(('matches-full/nest-max', dict(M1, m=('matches', True), uses=('sb',))))
+    cases.append(('matches-full/nest-nonrec/neg', dict(fx='nest', rec=False, m=('matches', True), uses=('sb',), neg=True)))
+    cases.append(('subdirs-num/two', dict(fx='two', m=('subdirs-num',))))
+    if tier == 'thorough':
+        cases.append(('matches/nest-minmax', dict(fx='nest', has_min=True, has_max=True, m=('matches', False), uses=('sb',))))
+        cases.append(('matches-full/nest-minmax', dict(fx='nest', has_min=True, has_max=True, m=('matches', True), uses=('sb',))))
+        cases.append(('every/links-rec', dict(fx='links', m=('every', 'QB'), uses=('sb',))))
+        cases.append(('any/two-pa', dict(fx='two', mods=('pa',), m=('any', 'QB'), uses=('sb',))))
+        for t in ('file', 'dir', 'symlink'):
+            cases.append(('every-type-%s/links-rec-sa' % t, dict(fx='links', mods=('sa',), m=('every', 'type ' + t))))
+        cases.append(('subdirs-num/mix', dict(fx='mix', m=('subdirs-num',))))
+        cases.append(('num==/mix-minmax', dict(fx='mix', has_min=True, has_max=True, m=('num', '=='))))
+    return cases
+
+
+K2_SPECIAL = [
+    ('notdir-file', dict(fx='links', text='-rel-act links/f : dir-contents is-empty', expect='HARD_ERROR')),
+    ('notdir-broken-link', dict(fx='links', text='-rel-act links/dang : dir-contents -recursive is-empty', expect='HARD_ERROR')),
+    ('link-to-dir', dict(fx='links', text='-rel-act links/ld : dir-contents num-files == K2', expect='num==', n=1)),
+    ('nested-dir-contents', dict(fx='two', text='-rel-act two : dir-contents -selection name q every file : '
+                                                   'dir-contents -recursive -min-depth 1 num-files == K2', expect='num==', n=1)),
+    ('missing', dict(fx='links', text='-rel-act links/nosuch : dir-contents is-empty', expect='FAIL')),
+]
+
+
+def _k2_obligations(tier):
+    obs = []
+    for name, case in _k2_cases(tier):
+        big = case['m'][0] == 'matches' or case.get('mods')
+        obs.append(Ob(name='K2:' + name, fn='k2_match', case=case, kernel='K2',
+                      bound='fixture %r; `%sexists P : %s %s`; every integer operand K_i (depth limits >= -99), every verdict of '
+                            'the stub matchers SA / SB per file%s' % (
+                                case['fx'], '! ' if case.get('neg') else '', _model_text(case),
+                                _matcher_text(case['m'], 0) if case['m'][0] != 'matches' else
+                                'matches %s FC' % ('-full' if case['m'][1] else ''),
+                                ('; [selector] FC in a catalogue of %d FILES-CONDITIONs' % len(FC_NEST))
+                                if case['m'][0] == 'matches' else ''),
+                      timeout=600 if big else 300, real=REAL_K2, stubs=(STUB_INT, STUB_FM), outside=OUT_WALK,
+                      entry='`[!] exists -rel-act FX : dir-contents ... FILES-MATCHER` (assert phase instruction)'))
+    for name, case in K2_SPECIAL:
+        obs.append(Ob(name='K2:' + name, fn='k2_special', case=case, kernel='K2',
+                      bound='`exists %s`; every integer K2' % case['text'], timeout=120, real=REAL_K2,
+                      stubs=(STUB_INT,), outside=OUT_WALK, entry='`exists ...` (assert phase instruction)'))
+    obs.append(Ob(name='K2:seeded-oracle-error', fn='k2_match', case=dict(M1, m=('num', '=='), oracle_bug=True), kernel='K2',
+                  bound='seeded oracle error: the oracle loses a file', timeout=120, expect=ob.REFUTE, real=REAL_K2))
+    return obs
+
+
+def _k3_obligations(tier):
+    obs = []
+    ncat = len(_entry_catalogue(tier))
+    for init in INIT_TREES:
+        obs.append(Ob(name='K3:%s/k2' % init, fn='k3_populate', case=dict(tier=tier, init=init, k=2), kernel='K3',
+                      bound='initial tree %r; every FILE-LIST of 2 FILE-SPECs from the catalogue of %d (%d lists)' % (
+                          init, ncat, ncat ** 2),
+                      timeout=600, real=REAL_POP, stubs=(STUB_UNTRACED,), outside=OUT_POP, selector=True,
+                      entry='`dir -rel-act par/dst (=|+=) { FILE-SPEC... }` (setup phase instruction): validate_pre_sds, main'))
+    obs.append(Ob(name='K3:seeded-oracle-error', fn='k3_populate', case=dict(tier='quick', init='empty', k=2, oracle_bug=True),
+                  kernel='K3', bound='seeded oracle error: FILE-SPECs applied in reverse order', timeout=300,
+                  expect=ob.REFUTE, real=REAL_POP, selector=True))
+    return obs
+
+
+def _k4_obligations(tier):
+    obs = []
+    variants = [('file', '=', 'absent'), ('dir', None, 'empty'), ('file', '+=', 'file-a'), ('dir', '+=', 'dir-a')]
+    max_n = 3 if tier == 'quick' else 5
+    for kind, mod, init in variants:
+        for n in range(0, max_n + 1):
+            if n > 3 and (kind, mod) not in (('file', '='), ('dir', None)):
+                continue
+            obs.append(Ob(name='K4:%s%s/%s/n%d' % (kind, mod or '', init, n), fn='k4_names',
+                          case=dict(kind=kind, mod=mod, init=init, n=n), kernel='K4',
+                          bound='`%s NAME%s` into initial tree %r: every NAME of exactly %d characters over {a . / :}' % (
+                              kind, (' %s ...' % mod) if mod else '', init, n),
+                          timeout=300, real=REAL_POP, stubs=(STUB_UNTRACED,), outside=OUT_POP, selector=True,
+                          entry='`dir -rel-act par/dst (=|+=) { FILE-SPEC }`'))
+    obs.append(Ob(name='K4:seeded-oracle-error', fn='k4_names', case=dict(kind='file', mod=None, init='empty', n=2, oracle_bug=True),
+                  kernel='K4', bound='seeded oracle error: the oracle accepts `..`', timeout=120,
+                  expect=ob.REFUTE, real=REAL_POP, selector=True))
     return obs
 
 
